@@ -426,3 +426,89 @@ func (p *Prog) ConstStringsOf(pkg string, e ast.Expr) ([]string, bool) {
 	}
 	return out, true
 }
+
+// liveLeaves expands v through phis, ignoring incoming edges cut by `dead`.
+func liveLeaves(v ssa.Value, dead func(b *ssa.BasicBlock, s int) bool) []ssa.Value {
+	var out []ssa.Value
+	seen := map[*ssa.Phi]bool{}
+	var walk func(v ssa.Value)
+	walk = func(v ssa.Value) {
+		v = stripNoCell(v)
+		phi, ok := v.(*ssa.Phi)
+		if !ok {
+			out = append(out, v)
+			return
+		}
+		if seen[phi] {
+			return
+		}
+		seen[phi] = true
+		blk := phi.Block()
+		dup := map[*ssa.BasicBlock]int{}
+		for i, e := range phi.Edges {
+			pred := blk.Preds[i]
+			nth := dup[pred]
+			dup[pred]++
+			if dead != nil && dead(pred, succIndex(pred, blk, nth)) {
+				continue
+			}
+			walk(e)
+		}
+	}
+	walk(v)
+	return out
+}
+
+// VLive: every live leaf of the value satisfies pred.
+func VLive(dead func(b *ssa.BasicBlock, s int) bool, pred func(ssa.Value) bool) func(ssa.Value) bool {
+	return func(v ssa.Value) bool {
+		ls := liveLeaves(v, dead)
+		if len(ls) == 0 {
+			return false
+		}
+		for _, l := range ls {
+			if !pred(l) {
+				return false
+			}
+		}
+		return true
+	}
+}
+
+// InfeasibleNilEdges cuts the "is nil" outcome of nil tests on values whose live
+// leaves (under the pruning `dead`) are all call results / allocations tested
+// non-nil by construction is NOT assumed: only leaves that are the nil constant
+// make the nil outcome feasible.
+func InfeasibleNilEdges(dead func(b *ssa.BasicBlock, s int) bool) func(b *ssa.BasicBlock, s int) bool {
+	return func(b *ssa.BasicBlock, s int) bool {
+		if len(b.Instrs) == 0 {
+			return false
+		}
+		iff, ok := b.Instrs[len(b.Instrs)-1].(*ssa.If)
+		if !ok {
+			return false
+		}
+		c := Decompose(iff.Cond)
+		isPhi := func(v ssa.Value) bool { _, ok := stripNoCell(v).(*ssa.Phi); return ok }
+		p := c.CmpIs(token.EQL, isPhi, isNilVal)
+		if p == PolNone {
+			return false
+		}
+		if !((p == PolTrue && s == 0) || (p == PolFalse && s == 1)) {
+			return false
+		}
+		var x ssa.Value = c.Bin.X
+		if IsNilConst(x) {
+			x = c.Bin.Y
+		}
+		for _, l := range liveLeaves(x, dead) {
+			if IsNilConst(l) {
+				return false
+			}
+			if _, _, isCall := CallResult(l); !isCall {
+				return false
+			}
+		}
+		return true
+	}
+}
